@@ -71,9 +71,15 @@ def events_alphabet():
     return ev
 
 
+# the directive prefix is matched case-insensitively and in the 'doctest:' form of the standard module
+SPELLINGS = ['xdoctest:', 'xdoctest:', 'doctest:', 'XDOCTEST:', 'xDoctest:', 'DOCTEST:', 'xdoctest:']
+
+
 def render(ev, k):
+    sp = SPELLINGS[k % len(SPELLINGS)]
+
     def stm(shape, com):
-        c = ('  # xdoctest: ' + com) if com else ''
+        c = ('  # ' + sp + ' ' + com) if com else ''
         if shape == 'one':
             return ['>>> T.append({}){}'.format(k, c)]
         if shape == 'multi':
@@ -101,7 +107,7 @@ def render(ev, k):
             return [">>> T.append({}) or '''".format(k), '... # xdoctest: +SKIP', "... '''"]
         raise KeyError(shape)
     if ev[0] == 'block':
-        return ['>>> # xdoctest: ' + ', '.join(dtext(d) for d in ev[1])]
+        return ['>>> # ' + sp + ' ' + ', '.join(dtext(d) for d in ev[1])]
     if ev[0] == 'inline':
         return stm(ev[2], ', '.join(dtext(d) for d in ev[1]))
     return stm(ev[1], None)
@@ -164,13 +170,21 @@ def check_case(case, ctx):
         ex = examples[0]
         ex.mode = 'native'
         ex.global_namespace['T'] = trace
+        given = None
         if default == 'skip_config':
-            ex.config['default_runtime_state'] = {'SKIP': True}
+            given = {'SKIP': True}
+            ex.config['default_runtime_state'] = given
         elif default == 'skip_cli':
             ns = {'options': '+skip', 'offset_linenos': False, 'colored': False, 'reportchoice': 'udiff',
                   'global_exec': None, 'supress_import_errors': False, 'verbose': 0}
             ex.config.update(DoctestConfig()._populate_from_cli(ns))
         summary = ex.run(verbose=0, on_error='return')
+        if given is not None and given != {'SKIP': True}:
+            raise Violation('default_options_mutated', 'the default option dict given to the doctest became {} during the run '
+                            '(directives of one doctest would reach every doctest sharing it)\n{}'.format(given, text))
+        if default == 'skip_cli' and ex.config['default_runtime_state'] != {'SKIP': True}:
+            raise Violation('default_options_mutated', 'the default options built from the command line became {} during the run\n{}'.format(
+                ex.config['default_runtime_state'], text))
     verdict = 'failed' if summary['failed'] else ('skipped' if summary['skipped'] else 'passed')
     expv = 'passed' if exp else 'skipped'
     if verdict == 'failed':
